@@ -296,17 +296,30 @@ func (resp *HTTPResponse) Compress() (err error) {
 	return
 }
 
+// acceptEncodingContains check the accept encoding (comma separated list) contains the encoding,
+// the encoding should be one of the list, not a part of other encoding's name (e.g.: pack200-gzip)
+func acceptEncodingContains(acceptEncoding, encoding string) bool {
+	for _, item := range strings.Split(acceptEncoding, ",") {
+		// 忽略参数，如：gzip;q=0.8
+		name := strings.TrimSpace(strings.SplitN(item, ";", 2)[0])
+		if strings.EqualFold(name, encoding) {
+			return true
+		}
+	}
+	return false
+}
+
 func (resp *HTTPResponse) getBodyByAcceptEncoding(acceptEncoding string) (encoding string, body []byte, err error) {
 	compressSrv := compress.Get(resp.CompressSrv)
 
 	// 如果支持br，而且br有数据
-	acceptBr := strings.Contains(acceptEncoding, compress.EncodingBrotli)
+	acceptBr := acceptEncodingContains(acceptEncoding, compress.EncodingBrotli)
 	if acceptBr && len(resp.BrBody) != 0 {
 		return compress.EncodingBrotli, resp.BrBody, nil
 	}
 
 	// 如果支持gzip，而且gzip有数据
-	acceptGzip := strings.Contains(acceptEncoding, compress.EncodingGzip)
+	acceptGzip := acceptEncodingContains(acceptEncoding, compress.EncodingGzip)
 	if acceptGzip && len(resp.GzipBody) != 0 {
 		return compress.EncodingGzip, resp.GzipBody, nil
 	}
